@@ -6,7 +6,7 @@ driver for the marks model (engine `marks`, C20)
 request (one line, blank separated tokens):
   `run <nshares> init* <nframes> frame* <nticks> tick*`
     init  := `<nfields> (<field> <val>)*`
-    frame := `<name> <nG> guard* <nE> write* <nR> write* <nX> write* <nT> trans*`
+    frame := `<name> <over: -|=frame> <nG> guard* <nE> write* <nR> write* <nX> write* <nT> trans*`
     guard := `<0|1 negated> <share> <field>`          (`let me if [not] field in share`)
     write := `P <share> <nfields> (<field> <val>)*`  (Share.update, stamps)
            | `C <share> <nfields> (<field> <val>)*`  (Share.change, no stamp)
@@ -113,12 +113,14 @@ def guard : P Guard := fun ts => do
 
 def frame : P FrameSrc := fun ts => do
   let (name, r) ← tok ts
+  let (o, r) ← tok r
+  let over ← (match o with | "-" => some none | o => (eqName o).map some)
   let (g, r) ← many guard r
   let (e, r) ← many write r
   let (c, r) ← many write r
   let (x, r) ← many write r
   let (t, r) ← many trans r
-  return (⟨name, g, e, c, x, t⟩, r)
+  return (⟨name, over, g, e, c, x, t⟩, r)
 
 def tickP : P (List Write × List Write) := fun ts => do
   let (b, r) ← many write ts
@@ -156,6 +158,10 @@ def runLine (ts : List String) : Option String := do
   match resolve p with
   | .error _ => return "ERR build"
   | .ok rs =>
+    -- the over links must form a forest (the real builder hangs on a cycle), and the first outline
+    -- must be enterable without conditions (a framer whose first outline refuses entry never starts)
+    if !(acyclic rs.frames) then none
+    if !((outline rs.frames 0).all (fun j => ((rs.frames[j]?.map (·.guards)).getD []).isEmpty)) then none
     let (_, obs, _) := run rs inits sched
     return " ".intercalate (obs.map (showObs rs))
 
